@@ -178,18 +178,18 @@ def load_known():
 # counts confirmed on the pinned tree (quick tier); a run whose counts fall below them passes vacuously -> checker error
 FLOORS = {
     'C01': {'programs': 1000, 'accept-set': 2000, 'into-cast': 2000},
-    'C02': {'programs': 1200, 'obligation:transmute': 6000, 'obligation:unwrap_unchecked': 1200, 'obligation:assume_init': 800},
+    'C02': {'programs': 1200, 'obligation:transmute': 1000},      # (no floor per kind of unsafe operation: replacing one by safe code is a legitimate change)
     'C03': {'programs': 1000, 'as_str-name': 1000, 'delegation': 2500},
     'C04': {'programs': 1000, 'from_str-map': 2000},
     'C05': {'programs': 1000, 'step': 2000},
     'C06': {'programs': 1000, 'constructor': 1000, 'cursor': 1500},
     'C07': {'programs': 800, 'constructor': 1500, 'index': 1200},
     'C08': {'programs': 1000, 'constructor': 1000},
-    'C09': {'programs': 1200, 'constructor': 3000, 'step': 2000, 'obligation:transmute': 6000},
+    'C09': {'programs': 1200, 'constructor': 3000, 'step': 2000, 'obligation:transmute': 1000},
     'C10': {'programs': 1200, 'accept-witness': 1200, 'catalogue': 40},
     'C11': {'programs': 1200, 'accepted': 1200},
     'C15': {'programs': 1200, 'vis': 12000, 'helper-private': 5000},
-    'C16': {'programs': 500, 'path-lint': 55, 'resolution-identity': 500},
+    'C16': {'programs': 500, 'path-lint': 40, 'resolution-identity': 500},      # 55 templates today; merging templates is a legitimate change
     'C18': {'programs': 120, 'perm-identity': 40, 'repr-identity': 40},
     'C19': {'programs': 1200, 'signature': 10000, 'iter-traits': 8000},
 }
